@@ -1,8 +1,11 @@
 package props
 
 import (
+	"context"
 	"encoding/json"
 	"fmt"
+	"github.com/cenkalti/backoff/v4"
+	"github.com/ovn-org/libovsdb/client"
 	"strings"
 	"sync"
 	"testing"
@@ -438,5 +441,261 @@ func TestC14(t *testing.T) {
 		}
 		kit.Record("C14", schemaKinds(s)+word.String()+fmt.Sprint(nh), rich && maxLag >= 2, func() interface{} { kase.Schedule = word.String(); return kase },
 			fmt.Sprintf("handlers:%d", nh), fmt.Sprintf("maxlag>=2:%v", maxLag >= 2), fmt.Sprintf("dispatcher-restarts:%d", restarts), fmt.Sprintf("refused-notifications:%d", bogus), fmt.Sprintf("restarts-with-backlog>=2:%d", restartsWithBacklog))
+	})
+}
+
+// permitHandler lets one event through per permit and records the uuids of added rows.
+type permitHandler struct {
+	permits chan struct{}
+	mu      sync.Mutex
+	added   map[string]bool
+	n       int
+}
+
+func (h *permitHandler) OnAdd(table string, m model.Model) {
+	<-h.permits
+	h.mu.Lock()
+	h.n++
+	h.added[reflectElem(m).FieldByName("UUID").String()] = true
+	h.mu.Unlock()
+}
+func (h *permitHandler) OnUpdate(table string, o, n model.Model) { <-h.permits }
+func (h *permitHandler) OnDelete(table string, m model.Model)    { <-h.permits }
+
+// TestC14Overflow: the documented exemption is exactly the overflow of the 65536-entry
+// event buffer. The buffer is overflowed once (the surplus events may be dropped), then
+// drained to well above half of its capacity; changes applied from then on - the buffer has
+// free slots again - must all be delivered.
+func TestC14Overflow(t *testing.T) {
+	const capacity = 65536
+	w := c16World(t)
+	tc, err := cache.NewTableCache(w.DBModel, nil, nil)
+	if err != nil {
+		t.Fatal(err)
+	}
+	h := &permitHandler{permits: make(chan struct{}, capacity+64), added: map[string]bool{}}
+	tc.AddEventHandler(h)
+	stop := make(chan struct{})
+	done := make(chan struct{})
+	go func() { tc.Run(stop); close(done) }()
+	defer func() {
+		close(stop)
+		for i := 0; i < capacity+64; i++ {
+			select {
+			case h.permits <- struct{}{}:
+			default:
+			}
+		}
+		<-done
+	}()
+	insert := func(i int) string {
+		u := kit.MkUUID(100000 + i)
+		r, _ := w.S.Table("T2").OvsRow(kit.Row{"v": kit.Scalar(kit.Real(float64(i)))}, true)
+		if err := tc.Update2(nil, ovsdb.TableUpdates2{"T2": {u: &ovsdb.RowUpdate2{Insert: &r}}}); err != nil {
+			t.Fatalf("harness: %v", err)
+		}
+		return u
+	}
+	total := capacity + 40 // one event is with the blocked handler, the buffer overflows by ~39
+	for i := 0; i < total; i++ {
+		insert(i)
+	}
+	kase := map[string]interface{}{"applied_before": total}
+	// drain to about 40000 outstanding
+	drained := 25000
+	for i := 0; i < drained; i++ {
+		h.permits <- struct{}{}
+	}
+	deadline := time.Now().Add(60 * time.Second)
+	for {
+		h.mu.Lock()
+		n := h.n
+		h.mu.Unlock()
+		if n >= drained {
+			break
+		}
+		if time.Now().After(deadline) {
+			kit.Fail(t, "C14", "events.missing", kase, "only %d of %d released events were delivered within 60 s", n, drained)
+		}
+		time.Sleep(time.Millisecond)
+	}
+	// the buffer has more than 20000 free slots now
+	var late []string
+	for i := 0; i < 5; i++ {
+		late = append(late, insert(total+i))
+	}
+	for i := 0; i < capacity+16; i++ {
+		select {
+		case h.permits <- struct{}{}:
+		default:
+		}
+	}
+	deadline = time.Now().Add(60 * time.Second)
+	for {
+		h.mu.Lock()
+		missing := 0
+		for _, u := range late {
+			if !h.added[u] {
+				missing++
+			}
+		}
+		n := h.n
+		h.mu.Unlock()
+		if missing == 0 {
+			break
+		}
+		if time.Now().After(deadline) {
+			kit.Fail(t, "C14", "events.dropped-without-overflow", kase, "%d of 5 changes applied while the event buffer had >20000 free slots never reached the handler (%d events delivered in all)", missing, n)
+		}
+		time.Sleep(2 * time.Millisecond)
+	}
+	h.mu.Lock()
+	n := h.n
+	h.mu.Unlock()
+	if n < capacity || n > total+5 {
+		kit.Fail(t, "C14", "events.count", kase, "%d events delivered for %d applied changes with a buffer of %d", n, total+5, capacity)
+	}
+	kit.Record("C14", "overflow", true, func() interface{} { return kase }, "overflow-then-recover")
+}
+
+type c14ClientCase struct {
+	FailWindowMs int     `json:"monitorRestartFailsForMs"`
+	Burst        int     `json:"burst"`
+	HandlerDelay string  `json:"handlerDelay"`
+	Seen         []int64 `json:"newValuesSeen,omitempty"`
+}
+
+// TestC14Client: the client starts one event dispatcher per connection. A reconnect whose
+// monitor restart fails a few times before it succeeds must not leave anything behind
+// that delivers events: afterwards a burst of updates of one row reaches a (slow) handler
+// in order, each update's old value being the previous update's new value.
+func TestC14Client(t *testing.T) {
+	w := c16World(t)
+	rapid.Check(t, func(t *rapid.T) {
+		kase := c14ClientCase{FailWindowMs: rapid.IntRange(5, 40).Draw(t, "failwindow"), Burst: rapid.IntRange(20, 80).Draw(t, "burst")}
+		delay := time.Duration(rapid.SampledFrom([]int{0, 50, 200}).Draw(t, "handlerdelayus")) * time.Microsecond
+		kase.HandlerDelay = delay.String()
+		fail := func(class, format string, args ...interface{}) {
+			kit.Fail(t, "C14", class, kase, format, args...)
+		}
+		srv, err := kit.StartServer(w)
+		if err != nil {
+			t.Fatalf("server: %v", err)
+		}
+		defer srv.Close()
+		px, err := kit.StartProxy(srv.Sock)
+		if err != nil {
+			t.Fatalf("proxy: %v", err)
+		}
+		defer px.Close()
+		bg := context.Background()
+		direct, err := kit.DialRaw(srv.Sock)
+		if err != nil {
+			t.Fatalf("dial: %v", err)
+		}
+		defer direct.Close()
+		if _, err := direct.Transact("DB", []json.RawMessage{json.RawMessage(`{"op":"insert","table":"T0","row":{"marker":"ctr","n":0}}`)}); err != nil {
+			t.Fatalf("harness: %v", err)
+		}
+		c, err := kit.NewClient(w, px.Endpoint(), client.WithReconnect(2*time.Second, backoff.NewConstantBackOff(3*time.Millisecond)))
+		if err != nil {
+			t.Fatalf("client: %v", err)
+		}
+		if err := c.Connect(bg); err != nil {
+			t.Fatalf("connect: %v", err)
+		}
+		defer c.Close()
+		if _, err := c.Monitor(bg, c.NewMonitor(client.WithTable(w.NewModel("T0")))); err != nil {
+			fail("monitor.error", "Monitor: %v", err)
+		}
+		var mu sync.Mutex
+		type upd struct{ old, new int64 }
+		var seen []upd
+		nOf := func(m model.Model) int64 {
+			_, r, err := w.RowFromModel("T0", m)
+			if err != nil || len(r["n"].K) != 1 {
+				return -1
+			}
+			return r["n"].K[0].I
+		}
+		c.Cache().AddEventHandler(&cache.EventHandlerFuncs{UpdateFunc: func(table string, o, n model.Model) {
+			if delay > 0 {
+				time.Sleep(delay)
+			}
+			mu.Lock()
+			seen = append(seen, upd{nOf(o), nOf(n)})
+			mu.Unlock()
+		}})
+		// the connection is lost; for a while every attempt to restart the monitor is refused
+		px.SetMethodErrors(map[string]string{"monitor_cond_since": "refused for now", "monitor_cond": "refused for now", "monitor": "refused for now"})
+		px.CutAll()
+		time.Sleep(time.Duration(kase.FailWindowMs) * time.Millisecond)
+		px.SetMethodErrors(nil)
+		if !waitConnected(c, 30*time.Second) {
+			fail("reconnect.never", "30 s after the monitor restarts stopped being refused the client is not connected")
+		}
+		// a row inserted now can only reach the cache over the new connection: once it is
+		// there the client is monitoring again (Connected() alone says little right after a cut)
+		if _, err := direct.Transact("DB", []json.RawMessage{json.RawMessage(`{"op":"insert","table":"T0","row":{"marker":"sync"}}`)}); err != nil {
+			fail("harness.direct", "insert: %v", err)
+		}
+		deadline := time.Now().Add(20 * time.Second)
+		for {
+			rows, err := kit.CacheRows(w, c, "T0")
+			if err == nil && len(rows) == 2 && c.Connected() {
+				break
+			}
+			if time.Now().After(deadline) {
+				fail("resync.cache-differs", "20 s after the monitor restarts stopped being refused a row inserted meanwhile has not reached the cache")
+			}
+			time.Sleep(time.Millisecond)
+		}
+		mu.Lock()
+		seen = nil
+		mu.Unlock()
+		for i := 0; i < kase.Burst; i++ {
+			if _, err := direct.Transact("DB", []json.RawMessage{json.RawMessage(`{"op":"mutate","table":"T0","where":[["marker","==","ctr"]],"mutations":[["n","+=",1]]}`)}); err != nil {
+				fail("harness.direct", "increment: %v", err)
+			}
+		}
+		deadline = time.Now().Add(30 * time.Second)
+		for {
+			mu.Lock()
+			n := len(seen)
+			mu.Unlock()
+			if n >= kase.Burst {
+				break
+			}
+			if time.Now().After(deadline) {
+				rows, _ := kit.CacheRows(w, c, "T0")
+				mu.Lock()
+				for _, e := range seen {
+					kase.Seen = append(kase.Seen, e.new)
+				}
+				mu.Unlock()
+				fail("events.missing", "%d of %d update events reached the handler within 30 s (connected %v, cache %v)", n, kase.Burst, c.Connected(), rows)
+			}
+			time.Sleep(time.Millisecond)
+		}
+		mu.Lock()
+		evs := append([]upd{}, seen...)
+		mu.Unlock()
+		for _, e := range evs {
+			kase.Seen = append(kase.Seen, e.new)
+		}
+		if len(evs) != kase.Burst {
+			fail("events.count", "%d update events for %d updates", len(evs), kase.Burst)
+		}
+		for i, e := range evs {
+			if e.new != e.old+1 || (i > 0 && e.old != evs[i-1].new) {
+				fail("events.order", "update event %d is %d -> %d after an event ending in %d: the handler is not told the updates in the order they were applied", i, e.old, e.new, func() int64 {
+					if i == 0 {
+						return e.old
+					}
+					return evs[i-1].new
+				}())
+			}
+		}
+		kit.Record("C14", fmt.Sprintf("client|%d|%d|%s", kase.FailWindowMs/10, kase.Burst/20, kase.HandlerDelay), true, func() interface{} { return kase }, "client-dispatcher-after-failed-reconnects")
 	})
 }
